@@ -9,8 +9,11 @@
         the client_id/authenticated bookkeeping of Endpoint.parse_request
      idpyoidc/server/oidc/userinfo.py : UserInfo.parse_request (override)
    Credentials are symbolic: a signed JWT is (algorithm family, the key that produced the signature,
-   claims); what cryptojwt does with it (key selection in the key jar for a kid-less header, signature
-   check, exp/nbf/iat with the 15 s skew) is the function [unpack].  Bearer tokens are resolved by the
+   kid header, claims); what cryptojwt does with it (key selection in the key jar by the kid of the header, or
+   the 0/1/many rule for a kid-less header, signature check, exp/nbf/iat with the 15 s skew) is the function
+   [unpack].  What the key jar holds under an id is a matter of HISTORY ([cred_op]: an accepted registration replaces
+   it, a deployer's keyjar.add_symmetric / import_jwks append to it); which of the symmetric keys it holds for a
+   client is the client's CURRENT secret is decided by the client database.  Bearer tokens are resolved by the
    environment function cx_tok (get_client_id_from_token of the endpoint; C04's subject).
    No proofs here.  Tied to the code by harness/drv_C01.py on every run. *)
 From Coq Require Import String.
@@ -66,8 +69,9 @@ Inductive vkey := VOct (s : pystr) | VRsa (n : nat) | VEc (n : nat).
    parameters as well: verify_request - after the point this model observes - merges them into the request, and
    Authorization._post_parse_request refuses an object whose client_id differs from the authenticated client;
    that is property C16's subject, not modelled here.) *)
+(* j_kid is the kid header of the JWS: chosen by the sender, absent (None) or empty = no kid. *)
 Record jwt := {
-  j_alg : alg;  j_key : skey;
+  j_alg : alg;  j_key : skey;  j_kid : option pystr;
   j_iss : option pystr;
   j_sub : option pystr;  j_azp : option pystr;  j_cid : option pystr;
   j_aud : option (list pystr);
@@ -101,8 +105,11 @@ Record client := {
   c_ep_methods : list (pystr * list meth) (* "<endpoint_name>_client_authn_method" entries *) }.
 
 Record keyjar := {
-  kj_iss : list (pystr * list vkey);     (* keys usable for sig, per issuer id, in bundle order *)
-  kj_own : list vkey }.                  (* the provider's own keys (issuer id "") *)
+  kj_iss : list (pystr * list vkey);     (* keys usable for sig, per issuer id, in bundle order: everything that was
+                                            ever filed under the id (superseded secrets and replaced keys included) *)
+  kj_own : list vkey;                    (* the provider's own keys (issuer id "") *)
+  kj_kid : list (vkey * pystr) }.        (* the kid every key in the jar carries (KeyBundle gives a key without kid
+                                            the thumbprint of its material); a key not listed has no kid *)
 
 (* what endpoint.get_client_id_from_token does with a token string *)
 Inductive tok_res := TokClient (c : pystr) | TokToOld | TokKeyError | TokOther.
@@ -153,18 +160,44 @@ Definition key_verifies (a : alg) (k : skey) (v : vkey) : bool :=
   | _, _, _ => false
   end.
 
-(* KeyJar.get_jwt_verify_keys for a header without kid: the issuer's keys of the right type are used
-   only when there is exactly one; for oct the provider's own symmetric keys are appended; without an
-   iss claim the provider's own keys of that type are the candidates.  None = IssuerNotFound. *)
-Definition candidates (kj : keyjar) (a : alg) (iss : option pystr) : option (list vkey) :=
+Definition vkey_eqb (a b : vkey) : bool :=
+  match a, b with
+  | VOct s, VOct s' => str_eqb s s'
+  | VRsa n, VRsa n' => Nat.eqb n n'
+  | VEc n, VEc n' => Nat.eqb n n'
+  | _, _ => false
+  end.
+Definition kid_of (kj : keyjar) (v : vkey) : pystr :=
+  match find (fun p => vkey_eqb (fst p) v) (kj_kid kj) with Some p => snd p | None => [] end.
+(* jwt.headers.get("kid", "") / jws_header.get("kid") followed by `if kid:` - an empty kid is no kid *)
+Definition kid_given (k : option pystr) : option pystr :=
+  match k with Some (c :: r) => Some (c :: r) | _ => None end.
+(* KeyIssuer.get(use, key_type, kid=k) / JWx.pick_keys with a kid: only keys carrying exactly that kid *)
+Definition with_kid (kj : keyjar) (k : pystr) (ks : list vkey) : list vkey :=
+  filter (fun v => str_eqb (kid_of kj v) k) ks.
+(* JWx.pick_keys: with a kid header every candidate with another (or no) kid is dropped *)
+Definition pick (kj : keyjar) (kid : option pystr) (ks : list vkey) : list vkey :=
+  match kid_given kid with Some k => with_kid kj k ks | None => ks end.
+(* KeyJar._add_key: with a kid, the issuer's keys of the right type with that kid; without, the issuer's keys
+   of the right type only when there is exactly one *)
+Definition issuer_sel (kj : keyjar) (a : alg) (kid : option pystr) (ks : list vkey) : list vkey :=
+  match kid_given kid with
+  | Some k => with_kid kj k (filter (vkey_is a) ks)
+  | None => match filter (vkey_is a) ks with [k] => [k] | _ => [] end
+  end.
+
+(* KeyJar.get_jwt_verify_keys + JWx.pick_keys: the issuer's keys selected by [issuer_sel]; for oct the provider's
+   own symmetric keys are appended; without an iss claim the provider's own keys of that type are the
+   candidates; whatever carries another kid than the header's is dropped.  None = IssuerNotFound. *)
+Definition candidates (kj : keyjar) (a : alg) (kid : option pystr) (iss : option pystr) : option (list vkey) :=
   match iss with
-  | None => Some (filter (vkey_is a) (kj_own kj))
+  | None => Some (pick kj kid (filter (vkey_is a) (kj_own kj)))
   | Some i =>
       match assoc i (kj_iss kj) with
       | None => None
       | Some ks =>
-          let sel := match filter (vkey_is a) ks with [k] => [k] | _ => [] end in
-          Some (sel ++ match a with AlgHS => filter (vkey_is AlgHS) (kj_own kj) | _ => [] end)
+          Some (issuer_sel kj a kid ks
+                ++ match a with AlgHS => pick kj kid (filter (vkey_is AlgHS) (kj_own kj)) | _ => [] end)
       end
   end.
 
@@ -186,7 +219,7 @@ Definition unpack (kj : keyjar) (now : Z) (t : token) : unpack_res :=
   | Jwt j =>
       match j_alg j with
       | AlgNone => UOther
-      | a => match candidates kj a (j_iss j) with
+      | a => match candidates kj a (j_kid j) (j_iss j) with
              | None => UOther
              | Some [] => UOther
              | Some ks => if existsb (key_verifies a (j_key j)) ks
@@ -253,23 +286,27 @@ Definition jti_then_client (m : meth) (j : jwt) (jdb : jti_db) : vres * jti_db :
   end.
 
 (* the HS branch of JWSAuthnMethod._verify:
-     keys = _keyjar.get("sig", "oct", ca_jwt["iss"], kid)
+     keys = _keyjar.get("sig", "oct", ca_jwt["iss"], ca_jwt.jws_header.get("kid"))
      _secret = _context.cdb[ca_jwt["iss"]].get("client_secret")
      if _secret and keys[0].key != as_bytes(_secret): raise AttributeError(...)
+   KeyJar.get -> KeyIssuer.get: ALL symmetric keys filed under iss (no 0/1/many rule here), or with a kid header
+   those carrying that kid; the FIRST of them must be the client's CURRENT secret, whatever else the key jar holds.
    false = one of KeyError (cdb[iss]), IndexError (keys[0]), AttributeError: all mean "next method" *)
-Definition hs_key_is_secret (cx : actx) (i : pystr) : bool :=
+Definition hs_keys (kj : keyjar) (i : pystr) (kid : option pystr) : list vkey :=
+  match assoc i (kj_iss kj) with
+  | None => []
+  | Some ks => pick kj kid (filter (vkey_is AlgHS) ks)
+  end.
+Definition hs_key_is_secret (cx : actx) (i : pystr) (kid : option pystr) : bool :=
   match assoc i (cx_cdb cx) with
   | None => false                               (* KeyError: cdb[iss] *)
   | Some c =>
       match c_secret c with
       | None | Some [] => true                  (* no secret: nothing is compared *)
       | Some s =>
-          match assoc i (kj_iss (cx_kj cx)) with
-          | None => false
-          | Some ks => match filter (vkey_is AlgHS) ks with
-                       | VOct k0 :: _ => str_eqb k0 s      (* keys[0].key == secret *)
-                       | _ => false                        (* IndexError *)
-                       end
+          match hs_keys (cx_kj cx) i kid with
+          | VOct k0 :: _ => str_eqb k0 s      (* keys[0].key == secret *)
+          | _ => false                        (* IndexError *)
           end
       end
   end.
@@ -279,7 +316,7 @@ Definition key_type_ok (cx : actx) (hs : bool) (j : jwt) : bool :=
   match j_alg j with
   | AlgHS => hs && match j_iss j with
                    | None => false              (* KeyError 'iss' *)
-                   | Some i => hs_key_is_secret cx i
+                   | Some i => hs_key_is_secret cx i (j_kid j)
                    end
   | _ => negb hs                                (* AttributeError("Wrong key type") *)
   end.
@@ -486,7 +523,7 @@ Definition parse_request (cx : actx) (ep : endpoint) (rq : request) (now : Z) (j
 (* ------------------------------------------------------------------ the inner claims of an assertion *)
 (* the same signed JWT with other values for the claims that name a client besides iss *)
 Definition jwt_with_inner (s a c : option pystr) (j : jwt) : jwt :=
-  {| j_alg := j_alg j; j_key := j_key j; j_iss := j_iss j; j_sub := s; j_azp := a; j_cid := c;
+  {| j_alg := j_alg j; j_key := j_key j; j_kid := j_kid j; j_iss := j_iss j; j_sub := s; j_azp := a; j_cid := c;
      j_aud := j_aud j; j_exp := j_exp j; j_nbf := j_nbf j; j_iat := j_iat j; j_jti := j_jti j |}.
 Definition token_with_inner (s a c : option pystr) (t : token) : token :=
   match t with NotJwt => NotJwt | Jwt j => Jwt (jwt_with_inner s a c j) end.
@@ -497,6 +534,59 @@ Definition rq_with_inner (s a c : option pystr) (rq : request) : request :=
      r_assertion := option_map (token_with_inner s a c) (r_assertion rq);
      r_request := option_map (token_with_inner s a c) (r_request rq);
      r_authflag := r_authflag rq |}.
+
+(* ------------------------------------------------------------------ the credential history of a client *)
+(* What happens to a client's credentials over the life of a provider.
+   CReg: Registration.client_registration_setup ACCEPTS a registration, for a new id and for an id that is (or
+         was) in use alike (process_request(req, new_id=False)):
+           context.cdb[id] = the new record   (new client_secret, new expiry, ...: the old record is gone)
+           the key-jar entry of the id is taken out; keyjar.load_keys(id, jwks=...) files the keys of the request,
+           keyjar.add_symmetric(id, client_secret) files the new secret
+         so the key material in force afterwards is exactly what this registration brought.  rg_kids: the kids
+         the new keys carry.
+   CRefused: a registration that is refused (error message or exception) rolls everything back: no effect.
+   CDel: del context.cdb[id] (the key jar is not touched).
+   CFile: keyjar.add_symmetric(id, s) / keyjar.import_jwks(jwks, id) by the deployer: APPENDS to what is filed.
+   CSet: context.cdb[id] = record by the deployer (e.g. a new secret for a static client). *)
+Record registration := {
+  rg_id : pystr;  rg_client : client;  rg_keys : list vkey;  rg_kids : list (vkey * pystr) }.
+
+Definition secret_keys (c : client) : list vkey :=
+  match c_secret c with Some (x :: s) => [VOct (x :: s)] | _ => [] end.
+Definition in_force (r : registration) : list vkey := rg_keys r ++ secret_keys (rg_client r).
+Definition register (cx : actx) (r : registration) : actx :=
+  {| cx_cdb := aset (rg_id r) (rg_client r) (cx_cdb cx);
+     cx_kj := {| kj_iss := aset (rg_id r) (in_force r) (kj_iss (cx_kj cx));
+                 kj_own := kj_own (cx_kj cx);
+                 kj_kid := kj_kid (cx_kj cx) ++ rg_kids r |};
+     cx_tok := cx_tok cx |}.
+Definition unregister (cx : actx) (i : pystr) : actx :=
+  {| cx_cdb := adel i (cx_cdb cx); cx_kj := cx_kj cx; cx_tok := cx_tok cx |}.
+Definition file_keys (cx : actx) (i : pystr) (ks : list vkey) (kids : list (vkey * pystr)) : actx :=
+  {| cx_cdb := cx_cdb cx;
+     cx_kj := {| kj_iss := aset i (match assoc i (kj_iss (cx_kj cx)) with Some l => l ++ ks | None => ks end)
+                             (kj_iss (cx_kj cx));
+                 kj_own := kj_own (cx_kj cx);
+                 kj_kid := kj_kid (cx_kj cx) ++ kids |};
+     cx_tok := cx_tok cx |}.
+Definition set_record (cx : actx) (i : pystr) (c : client) : actx :=
+  {| cx_cdb := aset i c (cx_cdb cx); cx_kj := cx_kj cx; cx_tok := cx_tok cx |}.
+
+Inductive cred_op :=
+| CReg (r : registration) | CRefused (r : registration) | CDel (i : pystr)
+| CFile (i : pystr) (ks : list vkey) (kids : list (vkey * pystr)) | CSet (i : pystr) (c : client).
+Definition cred_step (cx : actx) (o : cred_op) : actx :=
+  match o with
+  | CReg r => register cx r
+  | CRefused _ => cx
+  | CDel i => unregister cx i
+  | CFile i ks kids => file_keys cx i ks kids
+  | CSet i c => set_record cx i c
+  end.
+Definition cred_run (cx : actx) (h : list cred_op) : actx := fold_left cred_step h cx.
+(* the client an operation is about *)
+Definition op_client (o : cred_op) : pystr :=
+  match o with CReg r | CRefused r => rg_id r | CDel i | CFile i _ _ | CSet i _ => i end.
 
 (* ------------------------------------------------------------------ histories (for the replay theorem) *)
 Record step := { s_cx : actx; s_ep : endpoint; s_rq : request; s_now : Z }.
@@ -606,3 +696,23 @@ Definition chk_registry (tags : list pystr) : bool := list_eqb str_eqb (List.map
 (* set_client_authn_methods: (configured, observed endpoint.client_authn_method as tags) *)
 Definition chk_configured (c : option (list meth) * list pystr) : bool :=
   list_eqb str_eqb (List.map meth_tag (configured_methods (fst c))) (snd c).
+
+(* one registration step of a real provider: the credentials before (client database, key jar), the registration
+   (record stored, keys of the request, their kids), and what the real client database / key jar hold afterwards *)
+Definition client_eqb (a b : client) : bool :=
+  opt_str_eqb (c_secret a) (c_secret b) && option_eqb Z.eqb (c_expires a) (c_expires b).
+(* dictionaries compared as maps (the order of the entries plays no part in client authentication) *)
+Definition map_eqb {V} (eqb : V -> V -> bool) (a b : list (pystr * V)) : bool :=
+  forallb (fun p => option_eqb eqb (assoc (fst p) a) (assoc (fst p) b)) (a ++ b).
+Definition cdb_eqb := map_eqb client_eqb.
+Definition kjiss_eqb := map_eqb (list_eqb vkey_eqb).
+Definition all_keys (kj : keyjar) : list vkey := flat_map snd (kj_iss kj) ++ kj_own kj.
+Record rcase := {
+  rc_cdb : list (pystr * client);  rc_kj : keyjar;  rc_op : cred_op;
+  rc_cdb' : list (pystr * client);  rc_kj' : keyjar }.
+Definition chk_register (c : rcase) : bool :=
+  let cx' := cred_step {| cx_cdb := rc_cdb c; cx_kj := rc_kj c; cx_tok := fun _ => TokOther |} (rc_op c) in
+  cdb_eqb (cx_cdb cx') (rc_cdb' c)
+  && kjiss_eqb (kj_iss (cx_kj cx')) (kj_iss (rc_kj' c))
+  && list_eqb vkey_eqb (kj_own (cx_kj cx')) (kj_own (rc_kj' c))
+  && forallb (fun v => str_eqb (kid_of (cx_kj cx') v) (kid_of (rc_kj' c) v)) (all_keys (rc_kj' c)).
